@@ -3,7 +3,10 @@
 Run it after a fix: commit changed /repo (the rules are written against the names of the pinned tree)."""
 import json, os, sys
 sys.path.insert(0, os.path.dirname(os.path.dirname(os.path.abspath(__file__))))
-from sa.canon import reference_table
+from sa.canon import reference_table, shape_table
 t = reference_table(sys.argv[1] if len(sys.argv) > 1 else "/repo")
 json.dump(t, open(os.path.join(os.path.dirname(os.path.dirname(os.path.abspath(__file__))), "sa", "local_names.json"), "w"), indent=0, sort_keys=True)
 print(sum(len(m) for m in t.values()), "functions with locals,", sum(len(s) for m in t.values() for s in m.values()), "binding sites")
+sh = shape_table(sys.argv[1] if len(sys.argv) > 1 else "/repo")
+json.dump(sh, open(os.path.join(os.path.dirname(os.path.dirname(os.path.abspath(__file__))), "sa", "ref_shapes.json"), "w"), indent=0, sort_keys=True)
+print(sum(len(m["functions"]) for m in sh.values()), "function shapes,", sum(len(f) for m in sh.values() for f in m["functions"].values()), "statement fingerprints")
